@@ -64,6 +64,18 @@ def run(chk, ctx):
     okc, whyc = L.channel_acceptance(outs)
     chk.ob('C18.B', 'body channels', okc, whyc,
            site='pamqp/frame.py::marshal')
+    # ... and no guard on the encode side refuses a body length up to the
+    # maximum frame size
+    from .. import isets
+    fmax_ = st_it.global_value(prog.module('constants'), 'FRAME_MAX_SIZE')
+    ln_ = T.length(Sym('field', 'value'))
+    acc_ = L.accepted_values(outs, ln_)
+    miss_ = isets.ISet.range(1, fmax_ if isinstance(fmax_, int)
+                             else 131072).inter(acc_.complement())
+    chk.ob('C18.B', 'body lengths accepted by the encoder', miss_.is_empty(),
+           'no guard excludes a body length in 1..%s' % fmax_
+           if miss_.is_empty() else 'body lengths %s are refused by an '
+           'explicit guard' % miss_, site='pamqp/frame.py::marshal')
     # __len__
     bci = prog.cls('body.ContentBody')
     lm = prog.find_method(bci, '__len__')
@@ -220,7 +232,7 @@ def run(chk, ctx):
                '; may raise %s' % raises[0].exc if raises else ''),
            site='pamqp/body.py')
     composed(chk, ctx, f, marshal_of)
-    chk.floor('C18.B', 6, 'body facts')
+    chk.floor('C18.B', 7, 'body facts')
     chk.floor('C18.V', 3, 'protocol header facts')
     chk.floor('C18.K', 2, 'heartbeat facts')
     chk.assume('a 131 072-byte body fits in memory')
